@@ -98,6 +98,19 @@ CLAIMS = {
              "within the caps on the repaired tree; the ZipCrypto short-read defect they found is recorded as fixed.",
         design_ref="DESIGN.md §5 C09, §11",
     ),
+    "C11": dict(
+        text="Bounded model checking of single I/O faults in the writer: the scenario new, start_file(a), write, start_file(b), "
+             "write, finish, drop runs over a sink that fails at ONE I/O call; the call index is concrete per harness variant - "
+             "one variant for every index 0..91 of the scenario's 86-90 calls (whatever the call's kind: write, seek, flush), "
+             "all in the thorough tier, a spread incl. the header back-patching region in quick - while payload bytes, times and "
+             "permissions are symbolic. Decided per variant: no CBMC panic/overflow/unwrap check is reachable in any call after "
+             "the fault, incl. the implicit finalisation on drop; the fault is reported by some call; the fault-free variant "
+             "yields byte-for-byte the reference archive.",
+        note=TRUST + "One fault per run, writer side only (reader open/read under faults and new_append under faults are not built); the "
+             "fault position is enumerated by variants, not a solver variable (a symbolic index merges failed and healthy writer "
+             "states and was not dischargeable: > 10 GB).",
+        design_ref="DESIGN.md §5 C11, §11",
+    ),
     "C12": dict(
         text="Bounded model checking of concrete misuse sequences with symbolic parameters through the public writer API: "
              "write before any file, after a directory, after a symlink and after finish all return Err; end_extra_data "
@@ -188,7 +201,6 @@ NOT_APPLICABLE = {
     "C06": PENDING + " (std::path component iteration dominates the query)",
     "C07": "file-system effects of extract() are syscalls behind FFI with no encodable model; the reduced path-confinement harness under fs stubs is not yet discharged; see DESIGN.md §5 C07",
     "C10": PENDING + " (only the refusal of encrypted/data-descriptor entries is discharged, registered under C05)",
-    "C11": PENDING,
     "C14": PENDING,
     "C20": "concurrent use from several threads and Send/Sync are not solver queries (Kani does not model threads; Send/Sync is decided by the type checker); the single-threaded interleaving harness is not built yet; see DESIGN.md §5 C20",
 }
@@ -202,6 +214,7 @@ OUTSIDE = {
     "C05": "inputs larger than the stated buffers, peak-heap bound, new_append, by_name, streaming reader over fully hostile headers, real AES primitives",
     "C08": "entry-count thresholds (65534..65537 entries), multi-GiB real payloads (sizes are constructed symbolically), the 4 GiB write guard",
     "C09": "ZipCrypto and AES readers, short-write sinks, decoders' own buffering, streaming reader",
+    "C11": "faults on the read side (open/read/append), several faults, Interrupted/WouldBlock semantics, scenarios with extra data / encryption / raw copy",
     "C12": "sequences other than the listed ones, raw copy, compression levels, unsupported methods",
     "C13": "more than one old entry / one new entry / one round in a single query, > 65535 entries, CPython-built bases",
     "C17": "start_file_aligned (alignment half), extra data > 9 bytes, local-and-central split with non-empty local part (dev)",
